@@ -232,6 +232,7 @@ class Engine:
         self.return_states = []
         self.cur_line = None
         self.anchor_hits = set()
+        self.global_axioms = {}
 
     # ---- obligations ---------------------------------------------------------------------------
     def oblige(self, st, kind, label, goal, node=None, note=None):
@@ -246,7 +247,7 @@ class Engine:
         g = goal
         if self.guards:
             g = z3.Implies(z3.And(*self.guards), goal)
-        o = Oblig(name, kind, st.pc, g, line, note)
+        o = Oblig(name, kind, list(self.global_axioms.values()) + list(st.pc), g, line, note)
         o.inputs = self.inputs
         self.obligs.append(o)
         return o
@@ -325,6 +326,8 @@ class Engine:
             t_ = lib.strjoin(self)(v.t)
             st.assume(lib.untok(self)(t_) == v.t)
             return Val(t_, STR)
+        if isinstance(ty, (DictT, SetT)) and type(v.ty).__name__ in ("EmptyDictT", "EmptySetT"):
+            return Val(ty.empty(), ty)
         if isinstance(ty, ListT) and isinstance(v.ty, EmptyListT):
             r = Val(ty.empty(), ty)
             if isinstance(ty.elt, (StrT, IntT)):
@@ -687,6 +690,7 @@ class Engine:
         raise Unsupported("subscript on %s at line %s" % (ty, n.lineno))
 
     def slice_list(self, base, sl, st, n):
+        """xs[lo:hi] as an application of a function slice_T(xs, lo, hi) (so equal arguments give equal slices), axiomatised once"""
         ty = base.ty
         if not isinstance(ty, ListT):
             raise Unsupported("slice on %s at line %s" % (ty, n.lineno))
@@ -699,12 +703,17 @@ class Engine:
         self.oblige(st, "safety", "slice-lower-nonneg", lo >= 0, n)
         if sl.upper is not None:
             self.oblige(st, "safety", "slice-upper-nonneg", hi >= 0, n)
-        hi2 = z3.If(hi > ln, ln, hi)
-        lo2 = z3.If(lo > hi2, hi2, lo)
-        i = z3.FreshConst(z3.IntSort(), "sl")
-        arr = z3.FreshConst(z3.ArraySort(z3.IntSort(), ty.elt.sort()), "slice")
-        st.assume(z3.ForAll([i], z3.Select(arr, i) == z3.Select(ty.arr(base.t), i + lo2)))
-        return Val(ty.mk(arr, hi2 - lo2), ty)
+        fname = "slice_" + ty.name.replace("<", "_").replace(">", "_").replace(",", "_")
+        f = self.uf(fname, [ty, INT, INT], ty)
+        if fname not in self.global_axioms:
+            l_, a_, b_, i_ = z3.FreshConst(ty.sort(), "sl_l"), z3.FreshConst(z3.IntSort(), "sl_a"), z3.FreshConst(z3.IntSort(), "sl_b"), z3.FreshConst(z3.IntSort(), "sl_i")
+            L_ = ty.len(l_)
+            hi2 = z3.If(b_ > L_, L_, b_)
+            lo2 = z3.If(a_ > hi2, hi2, a_)
+            self.global_axioms[fname] = z3.ForAll([l_, a_, b_], z3.Implies(z3.And(a_ >= 0, b_ >= 0), z3.And(
+                ty.len(f(l_, a_, b_)) == hi2 - lo2,
+                z3.ForAll([i_], z3.Select(ty.arr(f(l_, a_, b_)), i_) == z3.Select(ty.arr(l_), i_ + lo2)))))
+        return Val(f(base.t, lo, hi), ty)
 
     def list_concat(self, a, b, st):
         ty = a.ty
@@ -931,8 +940,8 @@ class Engine:
             decl = self.c.locals.get(tgt.id)
             if decl is None and getattr(self, "in_ghost", False):
                 decl = self.c.ghost.get(tgt.id)
-            if isinstance(val.ty, EmptyListT):
-                if decl is not None and isinstance(decl, ListT):
+            if isinstance(val.ty, EmptyListT) or type(val.ty).__name__ in ("EmptyDictT", "EmptySetT"):
+                if decl is not None:
                     val = self.coerce(val, decl, st, node, "assignment to " + tgt.id)
             elif decl is not None and decl != val.ty:
                 val = self.coerce(val, decl, st, node, "assignment to " + tgt.id)
@@ -1092,10 +1101,15 @@ class Engine:
     def run_ghost(self, code, st):
         tree = ast.parse(code.strip() if "\n" not in code.strip() else _dedent(code))
         self.in_ghost = True
+        self.in_spec += 1  # ghost code generates no obligations and cannot raise
+        saved_rc = self.raise_conds
+        self.raise_conds = None
         try:
             res = self.exec_block(tree.body, st)
         finally:
             self.in_ghost = False
+            self.in_spec -= 1
+            self.raise_conds = saved_rc
         nexts = [r for r in res if r[1] == "next"]
         if len(nexts) != 1 or len(res) != 1:
             raise Unsupported("ghost code must be straight-line: %r" % code)
